@@ -99,68 +99,137 @@ def check_cliques(ctx):
 
 
 def check_modes(ctx):
+    """decided on the expanded value of the order that reaches the triangulation: a conditional term with three leaves"""
+    import re
+    from ..engines.blockeval import T
     fi = ctx.repo.nfunc(JT, 'JunctionTree._make_tree')
-    ifs = [s for s in fi.body if isinstance(s, ast.If)]
-    ok_none = ok_int = False
-    if ifs:
-        top = ifs[0]
-        if U(top.test) == 'order is None':
-            ok_none = any(isinstance(s, ast.Assign) and U(s.targets[0]) == 'order' and
-                          U(s.value).replace(' ', '') == 'self._greedy_order(stochastic=False)[0]' for s in top.body)
-            for s in top.orelse:
-                if isinstance(s, ast.If) and U(s.test).replace(' ', '') in ('type(order)isint', 'isinstance(order,int)'):
-                    t = ' ; '.join(U(x) for x in s.body).replace(' ', '')
-                    ok_int = 'self._greedy_order(stochastic=False)' in t and 'self._greedy_order(stochastic=True)for_inrange(order)' in t \
-                        and 'min(orders,key=lambdax:x[1])[0]' in t
-    ctx.ob('order-modes', fi, ifs[0] if ifs else fi.node, ok_none, 'order None selects the deterministic greedy order')
-    ctx.ob('order-modes', fi, ifs[0] if ifs else fi.node, ok_int,
+    be = walk_function(fi)
+    tri = [n for v in list(be.env.values()) + [c for _, c, _, _ in be.calls] for n in ast.walk(v)
+           if isinstance(n, ast.Call) and U(n.func) == 'self._triangulated' and len(n.args) == 1]
+    if not tri:
+        raise AnalysisError('_make_tree: triangulation call not found')
+    used = tri[0].args[0]
+    leaves = []
+
+    def walk(e, path):
+        if isinstance(e, ast.IfExp):
+            walk(e.body, path + [(T(e.test), True)])
+            walk(e.orelse, path + [(T(e.test), False)])
+        else:
+            leaves.append((e, path))
+    walk(used, [])
+    p = fi.params[1] if len(fi.params) > 1 else 'order'
+    NONE = ('%sisNone' % p, '%s==None' % p)
+    INT = ('type(%s)isint' % p, 'isinstance(%s,int)' % p, 'type(%s)==int' % p)
+    greedy = 'self._greedy_order(stochastic=False)'
+    stoch = '[self._greedy_order(stochastic=True)for_inrange(%s)]' % p
+    key = r'(lambdax:x\[1\]|itemgetter\(1\)|operator\.itemgetter\(1\))'
+    pat = re.compile(r'min\((\[%s\]\+%s|%s\+\[%s\]),key=%s\)\[0\]' % (re.escape(greedy), re.escape(stoch), re.escape(stoch), re.escape(greedy), key))
+    ok_none = ok_int = ok_given = False
+    for e, path in leaves:
+        t = T(e)
+        conds = {(c, pol) for c, pol in path}
+        if any(c in NONE and pol for c, pol in conds):
+            ok_none = t == greedy + '[0]'
+        elif any(c in INT and pol for c, pol in conds):
+            ok_int = pat.fullmatch(t) is not None
+        else:
+            ok_given = t == p
+    ctx.ob('order-modes', fi, fi.node, ok_none, 'order None selects the deterministic greedy order; the triangulation eliminates `%s`' % U(used)[:200],
+           construct='order None')
+    ctx.ob('order-modes', fi, fi.node, ok_int,
            'an integer selects the cheapest among the greedy order and that many randomised orders', construct='integer order mode')
-    store = [s for s in fi.body if isinstance(s, ast.Assign) and U(s.targets[0]) == 'self.elimination_order']
-    ctx.ob('order-modes', fi, store[0] if store else fi.node, bool(store) and U(store[0].value) == 'order',
-           'the order actually used is recorded as elimination_order (synthetic data generation walks it backwards)')
+    ctx.ob('order-modes', fi, fi.node, ok_given, 'any other value is used as the elimination order as given', construct='given order')
+    store = [(v, s_) for t_, v, s_ in be.stores if t_ == 'self.elimination_order']
+    ctx.ob('order-modes', fi, store[0][1] if store else fi.node, bool(store) and all(T(v) == T(used) for v, _ in store),
+           'the order actually used is recorded as elimination_order (synthetic data generation walks it backwards)',
+           construct='recorded elimination order')
+
+
+def walk_function(fi):
+    """the function walked once with every local replaced by its definition (engines/blockeval.py)"""
+    from ..engines.blockeval import BlockEval
+    from ..normalise import single_exit
+    from ..srcmodel import clone
+    stmts, _ = single_exit(clone(fi.body), '__ret__')
+    be = BlockEval(fi.qualname, loop_ok=lambda s: True)
+    be.run(stmts)
+    return be
 
 
 def check_schedule(ctx):
+    """stated on set-builder terms (engines/builders.py): comprehension and loop-nest spellings, locals and extracted helpers
+    denote the same collections"""
+    from ..engines.builders import Builder, grown, method_calls, strip_wrappers
+    from ..engines.blockeval import T
     fi = ctx.repo.nfunc(JT, 'JunctionTree.mp_order')
     ctx.analysed(fi)
-    defs = {U(s.targets[0]): s for s in walk_shallow(fi.node) if isinstance(s, ast.Assign) and len(s.targets) == 1}
-    m = defs.get('messages')
-    ok = m is not None and U(m.value).replace(' ', '') in (
-        '[(a,b)for(a,b)inself.tree.edges()]+[(b,a)for(a,b)inself.tree.edges()]',
-        '[(a,b)for(a,b)inself.tree.edges()]+[(b,a)for(a,b)inself.tree.edges()]'.replace('(a,b)in', 'a,bin'))
-    ctx.ob('schedule', fi, m or fi.node, ok, 'one message per direction of every tree edge')
-    # dependency relation
-    loops = [s for s in fi.body if isinstance(s, ast.For) and U(s.iter) == 'messages']
+    be = walk_function(fi)
+    # the dependency graph: the object that is topologically sorted
+    R = be.env.get('__ret__')
+    R0 = strip_wrappers(R) if R is not None else None
+    graphs = sorted({U(c.func.value) for s_, c, pc, loops in be.calls if isinstance(c.func, ast.Attribute) and c.func.attr == 'add_edges_from'})
+    if len(graphs) != 1:
+        raise AnalysisError('mp_order: expected one dependency graph (receiver of add_edges_from), found %s' % graphs)
+    G = graphs[0]
+    sorted_ok = isinstance(R0, ast.Call) and U(R0.func).endswith('topological_sort') and len(R0.args) == 1 and U(R0.args[0]) == G
+    nodes = method_calls(be, G, 'add_nodes_from')
+    edges = method_calls(be, G, 'add_edges_from')
+    if len(edges) != 1 or edges[0][3] or len(nodes) > 1 or (nodes and nodes[0][3]):
+        raise AnalysisError('mp_order: expected one add_edges_from (and one add_nodes_from) on `%s`, outside loops' % G)
+    if nodes:
+        M = nodes[0][1].args[0]                 # the expanded message collection
+    else:
+        # no node set: take the message collection from the dependency relation's generators
+        D0 = edges[0][1].args[0]
+        b0 = (grown(be, D0.id) if isinstance(D0, ast.Name) else [Builder.of_comprehension(D0)])
+        if not b0 or b0[0] is None or not b0[0].gens:
+            raise AnalysisError('mp_order: message collection not found')
+        M = b0[0].gens[0][1]
+    ctx.ob('schedule', fi, fi.node, sorted_ok and bool(nodes),
+           'the schedule is a topological order of the dependency graph `%s` whose nodes are ALL messages (isolated messages included); '
+           'result `%s`, node set %s' % (G, U(R)[:80] if R is not None else None, 'given' if nodes else 'NOT given (messages without dependencies vanish)'),
+           construct='topological order over all messages')
+    # ---- messages: both directions of every tree edge ---------------------------------------------------------
     ok = False
-    where = fi.node
-    if loops:
-        inner = [s for s in loops[0].body if isinstance(s, ast.For) and U(s.iter) == 'messages']
-        if inner:
-            m1, m2 = U(loops[0].target), U(inner[0].target)
-            ifs = [s for s in inner[0].body if isinstance(s, ast.If)]
-            if ifs:
-                where = ifs[0]
-                t = U(ifs[0].test).replace(' ', '')
-                cond = t in ('%s[1]==%s[0]and%s[0]!=%s[1]' % (m1, m2, m1, m2), '%s[0]!=%s[1]and%s[1]==%s[0]' % (m1, m2, m1, m2))
-                add = any(isinstance(c.func, ast.Attribute) and c.func.attr == 'add' and U(c.args[0]).replace(' ', '') == '(%s,%s)' % (m1, m2)
-                          for c in calls_in(ifs[0]))
-                ok = cond and add
-    ctx.ob('schedule', fi, where, ok,
-           'message (a,b) must precede every (b,c) with c != a - and nothing else - : edge m1 -> m2 iff m1[1] == m2[0] and m1[0] != m2[1]')
-    rets = [r for r in walk_shallow(fi.node) if isinstance(r, ast.Return)]
-    g = None
-    for c in calls_in(fi.node):
-        if U(c.func) in ('nx.DiGraph',):
-            par = getattr(c, '_parent', None)
-            if isinstance(par, ast.Assign):
-                g = U(par.targets[0])
-    nodes = any(isinstance(c.func, ast.Attribute) and U(c.func.value) == g and c.func.attr == 'add_nodes_from' and U(c.args[0]) == 'messages'
-                for c in calls_in(fi.node))
-    edges = any(isinstance(c.func, ast.Attribute) and U(c.func.value) == g and c.func.attr == 'add_edges_from' and U(c.args[0]) == 'edges'
-                for c in calls_in(fi.node))
-    ok = bool(rets) and g is not None and nodes and edges and U(rets[-1].value).replace(' ', '') == 'list(nx.topological_sort(%s))' % g
-    ctx.ob('schedule', fi, rets[-1] if rets else fi.node, ok,
-           'the schedule is a topological order of the dependency graph over ALL messages (isolated messages included)')
+    if isinstance(M, ast.BinOp) and isinstance(M.op, ast.Add):
+        b1, b2 = Builder.of_comprehension(M.left), Builder.of_comprehension(M.right)
+        if b1 is not None and b2 is not None:
+            c1, c2 = b1.canon(), b2.canon()
+            E = ('self.tree.edges()', 'self.tree.edges')
+            fwd, bwd = '(_g0_0,_g0_1)', '(_g0_1,_g0_0)'
+            ok = c1[1] == c2[1] and len(c1[1]) == 1 and c1[1][0][0] == 2 and c1[1][0][1] in E and not c1[2] and not c2[2] \
+                and {c1[0], c2[0]} == {fwd, bwd}
+    ctx.ob('schedule', fi, nodes[0][0] if nodes else edges[0][0], ok, 'one message per direction of every tree edge; the message set is `%s`' % U(M)[:160],
+           construct='message set of the schedule')
+    # ---- dependency relation -------------------------------------------------------------------------------------------
+    D = edges[0][1].args[0]
+    bs = []
+    if isinstance(D, ast.Name):
+        bs = grown(be, D.id)
+        init = be.inits.get(D.id)
+        if init is None or T(init) not in ('set()', '[]', 'list()'):
+            bs = []
+    else:
+        b = Builder.of_comprehension(D)
+        bs = [b] if b is not None else []
+    ok = False
+    got = None
+    if len(bs) == 1:
+        elt, gens, conds = bs[0].canon()
+        got = bs[0].show()
+        m = T(strip_wrappers(M))
+        ok = elt == '(_g0,_g1)' and [g for g in gens] == [(0, m), (0, m)] and \
+            sorted(conds) == sorted(['_g0[1]==_g1[0]', '_g0[0]!=_g1[1]'])
+        if not ok and sorted(conds) in (sorted(['_g1[0]==_g0[1]', '_g0[0]!=_g1[1]']), sorted(['_g0[1]==_g1[0]', '_g1[1]!=_g0[0]']),
+                                         sorted(['_g1[0]==_g0[1]', '_g1[1]!=_g0[0]'])):
+            ok = elt == '(_g0,_g1)' and [g for g in gens] == [(0, m), (0, m)]
+    elif not bs:
+        raise AnalysisError('mp_order: the dependency relation handed to add_edges_from is not a recognisable collection: `%s`' % U(D)[:100])
+    ctx.ob('schedule', fi, edges[0][0], ok,
+           'message (a,b) must precede every (b,c) with c != a - and nothing else - : edge m1 -> m2 iff m1[1] == m2[0] and m1[0] != m2[1], '
+           'for m1, m2 ranging over all messages; the source builds %s' % (got or '%d collections' % len(bs)),
+           construct='dependency relation of the schedule')
     sep = ctx.repo.nfunc(JT, 'JunctionTree.separator_axes')
     rets = [r for r in walk_shallow(sep.node) if isinstance(r, ast.Return)]
     ok = bool(rets) and U(rets[-1].value).replace(' ', '') in ('{(i,j):tuple(set(i)&set(j))for(i,j)inself.mp_order()}',
